@@ -427,6 +427,19 @@ func cmdCheck(args []string) int {
 			}
 			tries++
 			rep := w.Replay(f.ob, *repo)
+			if !rep.Confirmed && strings.Contains(rep.Note, "too long for replay") {
+				// the solver's witness is longer than can be replayed: ask again for a short one
+				full := f.ob.Result
+				f.ob.SmallLen = 12
+				if small := f.ob.Solve(timeout, false); small.Status == "sat" {
+					f.ob.Result = small
+					rep = w.Replay(f.ob, *repo)
+				}
+				if !rep.Confirmed {
+					f.ob.Result = full
+				}
+				f.ob.SmallLen = 0
+			}
 			if best == nil || (rep.Confirmed && !best.Confirmed) {
 				best, bestOb = rep, f.ob
 			}
